@@ -85,7 +85,7 @@ GROUPS = {"unmanaged": "presence", "noNode": "presence", "nodeGone": "presence",
           "podDndNoStart": "podDnd", "podDndInvalid": "podDnd", "podDndTerminal": "podDnd", "dsPodDnd": "podDnd", "pdbZero": "pdb",
           "pdbOk": "pdb", "pdbMulti": "pdb", "pdbZeroWaived": "pdb", "pdbZeroTolerating": "pdb", "pdbZeroOtherNs": "pdb",
           "notConsolidatable": "cons", "consolidatableEdge": "cons", "consolidatableFalse": "cons", "poolKindFlip": "poolKind",
-          "caNever": "ca", "caNeverStale": "ca", "whenEmpty": "policy", "buffer": "buffer", "notDrifted": "drift", "tgp": "tgp"}
+          "caNever": "ca", "caNeverStale": "ca", "whenEmpty": "policy", "buffer": "buffer", "notDrifted": "drift", "tgp": "tgp", "poolTgp": "poolTgp"}
 
 
 def _px(pods, name="px"):
@@ -188,6 +188,8 @@ def apply_blocker(b, pools, nodes, pods, pdbs, rng=None, xname="x", pxname="px",
         x["drifted"] = False
     elif b == "tgp":
         x["tgp"] = 300
+    elif b == "poolTgp":
+        xp["tgp"] = 300
 
 
 def churn_steps(b, pods):
